@@ -496,3 +496,84 @@ func enumPaths(f *ssa.Function, limit int) (paths []cfgPath, ok bool) {
 	rec(f.Blocks[0])
 	return paths, ok
 }
+
+// event summaries ------------------------------------------------------------------
+
+// mustDo lifts an instruction predicate over calls: the result is true for an
+// instruction that satisfies pred, or that is a plain static call of a module function
+// on every entry→return path of which an instruction satisfying the lifted predicate
+// is executed (so extracting a helper does not change a verdict).
+func mustDo(p *Prog, pred func(ssa.Instruction) bool) func(ssa.Instruction) bool {
+	memo := map[*ssa.Function]int{} // 0 unknown, 1 in progress, 2 yes, 3 no
+	var lifted func(in ssa.Instruction) bool
+	var fnMust func(f *ssa.Function) bool
+	fnMust = func(f *ssa.Function) bool {
+		switch memo[f] {
+		case 1, 3:
+			return false
+		case 2:
+			return true
+		}
+		memo[f] = 1
+		ok, _ := mustPass(entryPos(f), isReturn, lifted)
+		if ok {
+			memo[f] = 2
+		} else {
+			memo[f] = 3
+		}
+		return ok
+	}
+	lifted = func(in ssa.Instruction) bool {
+		if pred(in) {
+			return true
+		}
+		if c, ok := in.(*ssa.Call); ok {
+			if sc := c.Call.StaticCallee(); sc != nil && inModule(sc) && len(sc.Blocks) > 0 {
+				return fnMust(sc)
+			}
+		}
+		return false
+	}
+	return lifted
+}
+
+// mayDo: true for an instruction that satisfies pred or is a call (static, go, defer)
+// of a module function in which some instruction (transitively) may satisfy it.
+func mayDo(p *Prog, pred func(ssa.Instruction) bool) func(ssa.Instruction) bool {
+	memo := map[*ssa.Function]int{}
+	var lifted func(in ssa.Instruction) bool
+	var fnMay func(f *ssa.Function) bool
+	fnMay = func(f *ssa.Function) bool {
+		switch memo[f] {
+		case 1, 3:
+			return false
+		case 2:
+			return true
+		}
+		memo[f] = 1
+		res := false
+		instrsOf(f, func(in ssa.Instruction) {
+			if !res && lifted(in) {
+				res = true
+			}
+		})
+		if res {
+			memo[f] = 2
+		} else {
+			memo[f] = 3
+		}
+		return res
+	}
+	lifted = func(in ssa.Instruction) bool {
+		if pred(in) {
+			return true
+		}
+		if c, ok := in.(ssa.CallInstruction); ok {
+			if sc := c.Common().StaticCallee(); sc != nil && inModule(sc) && len(sc.Blocks) > 0 {
+				return fnMay(sc)
+			}
+		}
+		return false
+	}
+	return lifted
+}
